@@ -167,8 +167,11 @@ func C15(ctx *core.Ctx) int {
 // shapeSuffix names the hand-written shapes (P5, P6) in a signature: each is its own situation, and a known
 // finding in one of them must not mask a new defect in another. The systematic families are named by situation only.
 func shapeSuffix(name string) string {
-	if c := progClass(name); strings.HasPrefix(c, "P5/") || strings.HasPrefix(c, "P6/") {
-		return "|" + c
+	c := progClass(name)
+	for _, fam := range []string{"P5/", "P6/", "F/", "M/", "L/", "K/"} {
+		if strings.HasPrefix(c, fam) {
+			return "|" + c
+		}
 	}
 	return ""
 }
